@@ -3,6 +3,7 @@ package main
 import (
 	"go/token"
 	"go/types"
+	"strings"
 
 	"golang.org/x/tools/go/ssa"
 )
@@ -55,7 +56,7 @@ func evalBool(v ssa.Value, env map[ssa.Value]bool, depth int) (bool, bool) {
 
 func checkC09(p *Prog, r *Report) {
 	r.Explanation = "E3 (unique decodability) and path rules on fs.PathHasher. In the directory-walk callback of PathHasher.hash: (1) every entry must contribute its name relative to the hashed root, (2) a symlink entry must contribute its target, (3) every kind of entry (file, directory, symlink) must contribute something, so empty directories are visible; (4) the callback never prunes the walk: it returns nil or the error of an operation, never a sentinel such as SkipDir; (5) regular entries stream their content through fileHash and its error is returned. Top level: (6) the symlink branch writes the (unmodified) relative destination or the contents, with no lossy string transform between Readlink and the write; (7) the three top-level kinds are domain-separated. Memoisation: (8) Hash with recalc=true passes read=false to hash(), a memoised value is returned only under recalc==false, and the xattr shortcut in hash() is taken only under read==true; (9) timestamp hashing only when asked."
-	r.NotCovered = []string{"hash collisions", "staleness of xattr-recorded hashes when recalc=false", "godirwalk's traversal order (assumed sorted, its default)"}
+	r.NotCovered = []string{"hash collisions", "staleness of xattr-recorded hashes when recalc=false", "godirwalk's own sorting (only that the repository does not switch it off is checked)"}
 	hash := p.Fn("fs", "PathHasher.hash")
 	Hash := p.Fn("fs", "PathHasher.Hash")
 	fileHash := p.Fn("fs", "PathHasher.fileHash")
@@ -64,6 +65,7 @@ func checkC09(p *Prog, r *Report) {
 		r.unresolved("E3.dir-entry", "fs.PathHasher.hash / Hash / fileHash / fs.WalkMode")
 		return
 	}
+	p.walkSortedRule(r, "E5.walk-sorted")
 	// the walk callback
 	var cb *ssa.Function
 	for _, ci := range callsInFn(hash, walkMode) {
@@ -399,4 +401,50 @@ func (p *Prog) kindTagged(hash, fileHash *ssa.Function) bool {
 		}
 	}
 	return tagged
+}
+
+// walkSortedRule: the directory hash streams entry contents in walk order, and several listings (glob, cache archives,
+// BUILD file discovery) are emitted in walk order: fs.WalkMode must leave godirwalk's sorting on.
+func (p *Prog) walkSortedRule(r *Report, rule string) {
+	n, bad := 0, 0
+	var site token.Pos
+	for _, f := range p.Funcs("fs") {
+		eachInstr(f, false, func(_ *ssa.Function, i ssa.Instruction) {
+			c, ok := i.(*ssa.Call)
+			if !ok || !strings.HasSuffix(calleeName(&c.Call), "godirwalk.Walk") {
+				return
+			}
+			n++
+			// stores into the Options value passed
+			for x := range backSlice(c.Call.Args[1], SliceOpts{}) {
+				a, ok := x.(*ssa.Alloc)
+				if !ok {
+					continue
+				}
+				if refs := a.Referrers(); refs != nil {
+					for _, rf := range *refs {
+						fa, ok := rf.(*ssa.FieldAddr)
+						if !ok || !strings.HasSuffix(fieldKey(fa), "Options.Unsorted") {
+							continue
+						}
+						if frefs := fa.Referrers(); frefs != nil {
+							for _, u := range *frefs {
+								if st, ok := u.(*ssa.Store); ok {
+									if b, isC := constBool(st.Val); !isC || b {
+										bad++
+										site = st.Pos()
+									}
+								}
+							}
+						}
+					}
+				}
+			}
+		})
+	}
+	if n == 0 {
+		r.unresolved(rule, "call of godirwalk.Walk in package fs")
+		return
+	}
+	r.check(bad == 0, rule, "directory walks are name-sorted", p.pos(site), "fs.WalkMode", itoa(n)+" godirwalk.Walk call(s), Options.Unsorted never set", "the directory walk is switched to unsorted: entries arrive in file-system listing order, so a directory's hash (contents streamed in walk order) depends on the file system and on creation order, and different trees can hash the same")
 }
